@@ -161,6 +161,7 @@ def run_network(spec, walk, ctx, case):
             created['relay'] = edzed.Input('relay', initdef=spec['init'][spec['relay']],
                                            on_output=edzed.Event(spec['relay'], 'put'))
         feeders = {f['feeder']: f['name'] for f in spec['fed']}
+        fed_via = {f['name']: f.get('via', 'event') for f in spec['fed']}
         keep = []
         prng = ctx.rng('perturb', core.case_hash(case)) if spec.get('perturb') else None
         for c in spec['cblocks']:
@@ -168,7 +169,18 @@ def run_network(spec, walk, ctx, case):
                 core.perturb_addresses(prng, keep)
             kw = {}
             if c['name'] in feeders:
-                kw['on_output'] = edzed.Event(feeders[c['name']], 'put')
+                via = fed_via.get(feeders[c['name']], 'event')
+                if via == 'event_repeat':
+                    # the 'repeat' option inserts an automatically created Repeat block
+                    kw['on_output'] = edzed.Event(feeders[c['name']], 'put', repeat=1000)
+                    ctx.count('loops_through_repeat')
+                elif via == 'repeat_block':
+                    edzed.Repeat('rp_' + c['name'], dest=feeders[c['name']], etype='put',
+                                 interval=1000)
+                    kw['on_output'] = edzed.Event('rp_' + c['name'], 'put')
+                    ctx.count('loops_through_repeat')
+                else:
+                    kw['on_output'] = edzed.Event(feeders[c['name']], 'put')
             k = c['kind']
             if k == 'not':
                 blk = edzed.Not(c['name'], **kw)
@@ -302,7 +314,8 @@ def random_network(rng):
         ins = [rng.choice(pool) for _ in range(k)]
         cbs.append({'name': name, 'kind': kind, 'ins': ins})
         if rng.random() < 0.2:
-            fed.append({'name': f"f{i}", 'feeder': name, 'init': rng.random() < 0.5})
+            fed.append({'name': f"f{i}", 'feeder': name, 'init': rng.random() < 0.5,
+                        'via': rng.choice(['event', 'event', 'event_repeat', 'repeat_block'])})
     # fed inputs must be used by someone to close a loop: rewire a random input
     for f in fed:
         c = rng.choice(cbs)
@@ -352,7 +365,8 @@ def ladder(rng):
                     'ins': ins[-1:] if rng.random() < 0.3 and prev else ins})
         if cbs[-1]['kind'] in ('not', 'ident'):
             cbs[-1]['ins'] = cbs[-1]['ins'][-1:]
-        fed.append({'name': f"f{d}", 'feeder': f"k{d}", 'init': rng.random() < 0.5})
+        fed.append({'name': f"f{d}", 'feeder': f"k{d}", 'init': rng.random() < 0.5,
+                    'via': rng.choice(['event', 'event', 'event', 'event_repeat', 'repeat_block'])})
         prev = f"f{d}"
         for x in range(fan if d == depth - 1 else rng.randrange(0, 3)):
             cbs.append({'name': f"x{d}_{x}", 'kind': rng.choice(['xor', 'and', 'or']),
